@@ -90,8 +90,6 @@ func main() {
 			return map[string]any{"clen": ptracer.ClenVerif(b)}
 		case "hostile":
 			limit := runner.Limit{TimeLimit: 5 * time.Second, MemoryLimit: runner.Size(1 << 30)}
-			ctx, cancel := context.WithTimeout(context.Background(), 10*time.Second)
-			defer cancel()
 			wd := os.Getenv("VERIF_SCRATCH")
 			if wd == "" {
 				wd = "/"
@@ -107,7 +105,9 @@ func main() {
 			var slowest int64
 			for i := 0; i < reps; i++ {
 				t0 := time.Now()
+				ctx, cancel := context.WithTimeout(context.Background(), 10*time.Second)
 				res := r.Run(ctx)
+				cancel()
 				if d := time.Since(t0).Milliseconds(); d > slowest {
 					slowest = d
 				}
